@@ -92,8 +92,8 @@ CHECKS["C15"] = {
     "units": [
         unit("./internal", CORE_FILES, "^Harness_C15_Reverse_n[1-4]$", QT, flags={"labels": "^C15:"}),
         unit("./internal", CORE_FILES, "^Harness_C15_Reverse_n[56]$", T, flags={"labels": "^C15:"}),
-        unit("./internal/controller/ledger", ["ctrl/dbmodel.go", "ctrl/lib.go", "ctrl/c25.go", "ctrl/ops.go", "ctrl/ops_gen.go", "ctrl/revert.go", "ctrl/revert_gen.go", "ctrl/refreplay.go", "ctrl/events.go", "ctrl/events_gen.go", "ctrl/c36.go", "ctrl/c28.go", "ctrl/schema.go", "ctrl/conc.go", "ctrl/c37.go", "ctrl/c13fields.go", "ctrl/nativebun.go", "ctrl/export.go"], "^Harness_REVC_", QT, flags={"labels": "^C15:", "max-decisions": 4000}, reach=["end"]),
-        unit("./internal/controller/ledger", ["ctrl/dbmodel.go", "ctrl/lib.go", "ctrl/c25.go", "ctrl/ops.go", "ctrl/ops_gen.go", "ctrl/revert.go", "ctrl/revert_gen.go", "ctrl/refreplay.go", "ctrl/events.go", "ctrl/events_gen.go", "ctrl/c36.go", "ctrl/c28.go", "ctrl/schema.go", "ctrl/conc.go", "ctrl/c37.go", "ctrl/c13fields.go", "ctrl/nativebun.go", "ctrl/export.go"], "^Harness_REVS_", QT, flags={"labels": "^C15:", "max-decisions": 4000}, reach=["end"]),
+        unit("./internal/controller/ledger", ["ctrl/dbmodel.go", "ctrl/lib.go", "ctrl/c25.go", "ctrl/ops.go", "ctrl/ops_gen.go", "ctrl/revert.go", "ctrl/revert_gen.go", "ctrl/refreplay.go", "ctrl/events.go", "ctrl/events_gen.go", "ctrl/c36.go", "ctrl/c28.go", "ctrl/schema.go", "ctrl/conc.go", "ctrl/c37.go", "ctrl/c13fields.go", "ctrl/nativebun.go", "ctrl/export.go", "ctrl/c14c18.go"], "^Harness_REVC_", QT, flags={"labels": "^C15:", "max-decisions": 4000}, reach=["end"]),
+        unit("./internal/controller/ledger", ["ctrl/dbmodel.go", "ctrl/lib.go", "ctrl/c25.go", "ctrl/ops.go", "ctrl/ops_gen.go", "ctrl/revert.go", "ctrl/revert_gen.go", "ctrl/refreplay.go", "ctrl/events.go", "ctrl/events_gen.go", "ctrl/c36.go", "ctrl/c28.go", "ctrl/schema.go", "ctrl/conc.go", "ctrl/c37.go", "ctrl/c13fields.go", "ctrl/nativebun.go", "ctrl/export.go", "ctrl/c14c18.go"], "^Harness_REVS_", QT, flags={"labels": "^C15:", "max-decisions": 4000}, reach=["end"]),
     ],
 }
 
@@ -115,7 +115,7 @@ CHECKS["C03"] = {
     ],
 }
 
-CTRL_FILES = ["ctrl/dbmodel.go", "ctrl/lib.go", "ctrl/c25.go", "ctrl/ops.go", "ctrl/ops_gen.go", "ctrl/revert.go", "ctrl/revert_gen.go", "ctrl/refreplay.go", "ctrl/events.go", "ctrl/events_gen.go", "ctrl/c36.go", "ctrl/c28.go", "ctrl/schema.go", "ctrl/conc.go", "ctrl/c37.go", "ctrl/c13fields.go", "ctrl/nativebun.go", "ctrl/export.go"]
+CTRL_FILES = ["ctrl/dbmodel.go", "ctrl/lib.go", "ctrl/c25.go", "ctrl/ops.go", "ctrl/ops_gen.go", "ctrl/revert.go", "ctrl/revert_gen.go", "ctrl/refreplay.go", "ctrl/events.go", "ctrl/events_gen.go", "ctrl/c36.go", "ctrl/c28.go", "ctrl/schema.go", "ctrl/conc.go", "ctrl/c37.go", "ctrl/c13fields.go", "ctrl/nativebun.go", "ctrl/export.go", "ctrl/c14c18.go"]
 CTRL_PKG = "./internal/controller/ledger"
 DBMODEL_ASSUME = [
     "dbmodel (harness/ctrl/dbmodel.go) stands for the SQL store below the controller's Store interface: tables as Go values, transactional write sets applied on Commit and dropped on Rollback, autocommit on a non-transactional handle, unique keys (ledger,id), (ledger,reference), (ledger,idempotency_key), (ledger,address), non-transactional sequences, 'a failed statement aborts the transaction', transaction_date() constant inside a transaction. It is trusted, not verified (no PostgreSQL in the sandbox)",
@@ -411,11 +411,11 @@ FILTER_FAMILY = "leaves of every documented kind per resource (exact / $in / 'a:
 CHECKS["C20"] = {
     "level": "other",
     "explanation": "A family of filter ASTs is generated, handed to the real store (real ResourceRepository.buildFilteredDataset, ResolveFilter, BuildDataset, collectAddressFilters, canPushAddressFilterToLateral, go-libs query.Builder, bun) through the recording SQL driver, and the statement emitted for each filter is evaluated by the SQL evaluator on symbolic tables (rows of several ledgers; addresses as strings whose segment arrays are uninterpreted functions of the string; transactions with posting slots; jsonb metadata over 2 keys). Filter values are sentinels mapped to symbolic variables, distinct per leaf. An independent reference evaluator (pychecks/filters.py) gives the meaning of the AST per entity; z3 decides that the list statement returns exactly the entities whose filter is true, once each, that the count statement counts them, and that no scalar sub-query of the statement can yield more than one row (an SQL error). Resources: accounts, transactions, volumes (current and at a PIT by effective date), aggregated balances (per-asset sums over the matching accounts), logs. The lateral push-down of address filters is covered through the volumes / aggregated statements (templates with $or / $not over partial addresses).",
-    "bounds": {"quick": "K <= 2 rows per table, 2 posting slots per transaction; " + FILTER_FAMILY + " (pairs as combinations, triples over 3 leaves, PIT for ASTs of <= 2 leaves)", "thorough": "K <= 3 rows per table; pairs and triples as permutations over all representative leaves, 4 more templates, PIT for every AST"},
+    "bounds": {"quick": "K <= 2 rows per table, 2 posting slots per transaction; " + FILTER_FAMILY + " (pairs as combinations, triples over 3 leaves, PIT for ASTs of <= 2 leaves)", "thorough": "K <= 3 rows per table; for accounts, transactions and logs: pairs and triples as permutations over all representative leaves, 4 more templates, PIT for every AST; for volumes and aggregated balances the quick family"},
     "outside": "reading of the filter language where the property is silent (stated in DESIGN.md): an atom over an absent attribute (balance of a never-held asset, reverted_at of a non-reverted transaction, absent reference) is unknown and Kleene logic applies; $like; grouped volumes; volumes by insertion date and OOT windows with filters; strings needing SQL / jsonpath escaping (escapeSQL / escapeJSONPath are not exercised: sentinels are plain); ordering of the page (C21); tables larger than K",
     "assumptions": COMMON_ASSUME[2:] + SQL_ASSUME + ["row invariants: address_array / sources_arrays / destinations_arrays are the segments of the address they sit next to; every accounts_volumes / moves row has its accounts row in the same ledger; post-commit effective volumes (InvE, C04)"],
     "technique": "bounded symbolic evaluation (z3) of the SQL text captured from the real store for a generated family of filter ASTs, against an independent reference evaluator of the filter language",
-    "units": [py_unit("filters", "filters-" + r, ["--props", "C20", "--resources", r], timeout_s=3000) for r in ("accounts", "transactions", "volumes", "aggregated", "logs")],
+    "units": [py_unit("filters", "filters-" + r, ["--props", "C20", "--resources", r], timeout_s=6000) for r in ("accounts", "transactions", "volumes", "aggregated", "logs")],
 }
 
 CHECKS["C19"]["units"].append(py_unit("filters", "filters-C19", ["--props", "C19", "--resources", "accounts,volumes,aggregated,transactions"], timeout_s=3000))
@@ -464,6 +464,11 @@ CHECKS["C14"] = {
     "units": [py_unit("c14_reference", "c14", [])],
 }
 
+
+CHECKS["C14"]["units"].append(unit(CTRL_PKG, CTRL_FILES, "^Harness_C14C_", QT, flags={"labels": "^(C14:|no-panic)", "max-decisions": 4000}, reach=["end"]))
+CHECKS["C14"]["explanation"] += " Controller side (gosym, store model): a create that reuses a reference, with any one store call of the request failing (generic / deadlock / serialization) or none, fails with the reference conflict or the injected failure, with the reference conflict when nothing was injected and also when the conflict is met on the deadlock-retry path, and leaves no trace."
+CHECKS["C18"]["units"].append(unit(CTRL_PKG, CTRL_FILES, "^Harness_C18C_", QT, flags={"labels": "^(C18:|no-panic)", "max-decisions": 4000}, reach=["end"]))
+CHECKS["C18"]["explanation"] += " Controller side (gosym, store model): an account created by a future-dated, back-dated or undated transaction and then met by the others in any of 4 orders has, after each write, first usage = the earliest effective date so far (the value the real createTransaction / AccountsWithDefaultMetadata hand to UpsertAccounts)."
 
 CHECKS["C34"] = {
     "level": "other",
